@@ -296,6 +296,14 @@ def samplerOp (j : Json) : R Json := do
   pure <| Json.mkObj [("ubInd", natList (ubIndices ws)), ("ubProb", jarr ((ubWeightsProb ws).map jrat)),
     ("p", jrat (probDistVal peaks)), ("ub", jrat (probUpbnd peaks)), ("accept", Json.bool (accept u peaks))]
 
+/-- Gaussian `measure_fock` / `measure_threshold`: the mean vector and covariance matrix handed to the thewalrus samplers -/
+def gaussDiscrete (j : Json) : R Json := do
+  let st ← readGS j
+  let modes ← getNatList j "modes"
+  let k := 2 * modes.length
+  let a := gaussDiscreteArgs st modes
+  pure <| Json.mkObj [("mean", jvec k a.mean), ("cov", jmat k k a.cov), ("idxs", natList (discreteIdxs st.n modes))]
+
 def handler (op : String) (j : Json) : Option (R Json) :=
   match op with
   | "meas.chop" => some (chop j)
@@ -312,6 +320,7 @@ def handler (op : String) (j : Json) : Option (R Json) :=
   | "meas.collate" => some (collate j)
   | "meas.fockDist" => some (fockDistOp j)
   | "meas.sampler" => some (samplerOp j)
+  | "meas.gaussDiscrete" => some (gaussDiscrete j)
   | _ => none
 
 end SFV.Drv.Measure
